@@ -25,6 +25,7 @@ CONSTANTS
   MaxConnEv = 0
   MaxApi = 0
   StopKinds <- SK_All
+  OutKinds <- OK_Del
   Faults <- F_All
   Dev <- NoDev
 CONSTRAINT NoOverflow
